@@ -88,3 +88,21 @@ package playback
 //@ func (s *Server) onList
 //@   property C28
 //@   safety -ovf
+
+// C04: every playback request is authenticated for the playback action on the requested path: the middleware asks
+// the authentication manager for exactly this server's action with the client's own credentials and address
+// (the address is taken from forwarding headers only for configured trusted proxies), and a rejected request is
+// aborted with 401; both middlewares are installed before any route is registered.
+
+//@ func (s *Server) doAuth
+//@   property C04
+//@   safety -all
+//@   assert-call Credentials: h == ctx.Request
+//@   assert-call ClientIP: c == caller_ctx
+//@   assert-call ParseIP: s == resultof(ClientIP)
+//@   assert-call Authenticate: req.Action == conf.AuthActionPlayback && req.Path == pathName && req.Credentials == resultof(Credentials) && req.IP == resultof(ParseIP) && called(Credentials) == 1 && called(ClientIP) == 1
+//@   assert-call AbortWithStatusJSON: code == 401 && c == caller_ctx && called(Authenticate) == 1 && resultof(Authenticate, 1) != nil
+//@   ensures [asked-exactly-once] called(Authenticate) == 1
+//@   ensures [rejected-is-401-and-aborted] resultof(Authenticate, 1) != nil ==> called(AbortWithStatusJSON) == 1
+//@   ensures [result-is-the-decision] result == (resultof(Authenticate, 1) == nil)
+//@   ensures [admitted-passes-untouched] resultof(Authenticate, 1) == nil ==> called(AbortWithStatusJSON) == 0
